@@ -3,13 +3,19 @@ use std::path::Path;
 
 pub mod common;
 pub mod c01;
+pub mod c02;
+pub mod c03;
+pub mod c04;
 
-pub const IDS: &[&str] = &["C01"];
+pub const IDS: &[&str] = &["C01", "C02", "C03", "C04"];
 
 macro_rules! dispatch {
     ($id:expr, $f:ident, $($arg:expr),*) => {
         match $id {
             "C01" => $f(&c01::C01, $($arg),*),
+            "C02" => $f(&c02::C02, $($arg),*),
+            "C03" => $f(&c03::C03, $($arg),*),
+            "C04" => $f(&c04::C04, $($arg),*),
             other => {
                 eprintln!("unknown property {other}");
                 2
